@@ -55,7 +55,12 @@ impl DependentRule for SerializableRule {
 
 impl<L: Language> DependentRule for (L, SerializableRuleCore) {
   fn visit_dependency<'a>(&'a self, sorter: &mut TopologicalSort<'a, Self>) -> OrderResult<()> {
-    visit_dependent_rule_ids(&self.1.rule, sorter)
+    visit_dependent_rule_ids(&self.1.rule, sorter)?;
+    // the local utils of a global rule are part of it: what they refer to is its dependency too
+    for util in self.1.utils.iter().flat_map(|utils| utils.values()) {
+      visit_dependent_rule_ids(util, sorter)?;
+    }
+    Ok(())
   }
 }
 
